@@ -487,6 +487,10 @@ def c12(tier):
         for fn, nm in enumerate(("areNeighborCells", "cellsToDirectedEdge", "getDirectedEdgeDestination", "directedEdgeToCells", "gridDistance", "cellToLocalIj")):
             js.append(ub("%s_r%d" % (nm, r), ["-DPAIR", "-DFN=%d" % fn, "-DRES=%d" % r], unwind=max(r + 2, 4), est=150 + 60 * r, mem="M", tier=t, timeout=2400, bound="first word with resolution field %d, second arbitrary" % r))
         js.append(ub("localIjToCell_r%d" % r, ["-DIJ2CELL", "-DRES=%d" % r], unwind=r + 2, est=150 + 60 * r, mem="M", tier=t, timeout=2400, bound="origin word with resolution field %d, all int32 i,j, all modes" % r))
+    for r in (0, 1):
+        for fn, nm in enumerate(("cellToVertex", "cellToVertexes", "isValidVertex", "getIcosahedronFaces")):
+            js.append(ub("%s_r%d" % (nm, r), ["-DVERTEXAPI", "-DFN=%d" % fn, "-DRES=%d" % r, "-DUPB=(1<<10)"], unwind=max(r + 2, 8), us=dict(C12_LOOPS, **{"getIcosahedronFaces.0": 7, "getIcosahedronFaces.1": 7, "getIcosahedronFaces.2": 7}), unit_defs=UP7_DEFS, est=900, mem="X", tier="thorough", timeout=3400, core=False,
+                         bound="arbitrary word with resolution field %d (L-UP7 model for the aperture-7 parent)" % r))
     js += with_witness(ub("gridDisk_r0_k1", ["-DDISK", "-DFN=0", "-DRES=0", "-DKK=1"], unwind=4, est=100, mem="M"))[1:]
     js += with_witness(ub("areNeighborCells_r0", ["-DPAIR", "-DFN=0", "-DRES=0"], unwind=4, est=100, mem="M"))[1:]
     return js
